@@ -522,7 +522,7 @@ def check(run):
     configs = [("E0", consts(1, 4, 2, 1, 1)), ("E1", consts(2, 3, 2, 2, 1))]
     sims = [("sim", consts(3, 6, 3, 3, 2, mind=3), 40, 6, run.seed % 100000)]
     if thorough:
-        configs = [("E0", consts(1, 5, 3, 2, 1)), ("E1", consts(2, 4, 2, 2, 2)), ("E2", consts(3, 4, 2, 1, 1))]
+        configs = [("E0", consts(1, 5, 3, 2, 1)), ("E1", consts(2, 4, 2, 2, 1)), ("E2", consts(3, 4, 2, 1, 1))]
         sims = [("sim", consts(3, 6, 3, 3, 2, mind=4), 150, 8, run.seed % 100000),
                 ("sim2", consts(2, 5, 3, 2, 2, mind=3), 100, 4, run.seed % 100000 + 1)]
     model_cex = None
